@@ -168,8 +168,13 @@ func ghostTimerPrefix(kg uint16) []byte { return []byte{byte(kg >> 8), byte(kg),
 //@   property C09
 //@   nosafety
 //@   ensures result1 != nil ==> !result0
+//@   ensures result0 ==> (o.keyGroupRange.Contains(partitioning.KeyGroupRangeFromBytes(startKey[:2], endKey[:2])) && len(recv_) == 0) ||
+//@           forall(0, len(recv_), func(j int) bool { return !recv_[j].needsTable && recv_[j].err == nil })
+//@   ensures result0 && len(recv_) > 0 ==> len(recv_) == len(o.neighbors)
 //@   loop 1:
-//@     invariant !neighborNeedsTable
+//@     invariant !neighborNeedsTable && len(recv_) == idx_
+//@     invariant forall(0, len(recv_), func(j int) bool { return !recv_[j].needsTable })
+//@     invariant err == nil ==> forall(0, len(recv_), func(j int) bool { return recv_[j].err == nil })
 
 //@ func neighborPartition.NeedsTable
 //@   property C09
